@@ -8,6 +8,10 @@ CLAIMED = {
    text='Seeded write sequences over HandleLimiter/FastqHandle(single_cell) on an in-memory SimFS; for every sampled sequence the fault family is enumerated (every fd budget k, a transient open failure at every open attempt, every path permanently failing, clock anomalies). Oracle: decompressed content per path equals acknowledged payloads in order, valid gzip, no leaked handle, write() raises only if its own open failed with no other handle open, bounded open attempts. Sampling over sequences, enumeration over faults: evidence, not proof.',
    note='Trusts: in-memory SimFS models open()/append/truncate; real gzip. write()/close() I/O errors not injected (outside the statement).',
    tech='deterministic simulation: seeded workload x enumerated open()-fault plans on a simulated file system and clock; ddmin-minimised explicit replay files'),
+ 'C16': dict(engine='features', cat='exploration', design='5 C16',
+   text='Seeded operation histories (add* sort query*)+ over two FeatureContainers sharing the process-global LRU memo, with repeated queries across re-indexing and LRU churn through the second container; every point/range/aligned-read result is compared as a set with a brute-force list model, operation by operation. Sampled histories: evidence, not proof.',
+   note='Trusts the list model and pysam block semantics (half-open). Un-indexed queries are preceded by sort() by the harness. No fault/clock exists on this surface; the simulator owns the history only.',
+   tech='deterministic simulation: seeded operation histories against an executable reference model, checked per operation; ddmin-minimised replay files'),
 }
 NA = {
  'C02': 'Pure function of (strategy layout, read pair): fixed slices of two strings; no stream state, schedule, clock, fault or history for a simulator to choose.',
